@@ -253,6 +253,43 @@ def run(ctx, rep):
                    "overridden by a default one would be exported", pa.file, t["l"])
         rep.floor("visibility-merge", "handle_non_default_visibility calls", n_g, 2)
 
+    # ---- --exclude-libs accumulates over repeated options ----------------------------------------------------------------------------
+    # `--exclude-libs a.a --exclude-libs b.a` demotes the symbols of both archives (GNU ld). The option handler may therefore build a fresh
+    # ExcludeLibs::Some(set) only when no set exists yet (previous value None); otherwise it must insert into the existing set.
+    rep.rule("exclude-libs-accumulate", "a fresh ExcludeLibs::Some(..) is constructed only on the edge where the previous value is ExcludeLibs::None, and the Some arm inserts "
+             "into the existing set: repeated --exclude-libs options add up")
+    import decide as _decide
+    n_some = n_ins = 0
+    for c in F.closures_of("libwild::args::elf::setup_argument_parser"):
+        made = []
+        for bi, blk in enumerate(c.blocks):
+            if blk.get("cleanup"):
+                continue
+            for st in blk["s"]:
+                if st["k"] == "assign" and st["rv"]["k"] == "agg" and str(st["rv"].get("adt") or "").endswith("ExcludeLibs") and st["rv"].get("variant") == "Some":
+                    made.append((bi, st))
+        if not made:
+            continue
+        cflow = P.flow(c)
+        for bi, st in made:
+            n_some += 1
+            at = _decide.atoms_at(P, F, c, bi)
+            on_none = any(a[0] == "variant:ExcludeLibs" and a[1] == frozenset({"None"}) for a in at)
+            if not on_none and st["rv"]["ops"]:
+                # or the new set is built from the old one (take/replace, then extend)
+                on_none = "exclude_libs" in render(expr_tree(P, c, st["rv"]["ops"][0], depth=8, expand_params=0))
+            rep.ob("exclude-libs-accumulate", f"fresh-set#{n_some}", on_none,
+                   "a new set is created only when none existed" if on_none else
+                   "ExcludeLibs::Some(new set) is stored without knowing that the previous value was None: a second --exclude-libs option discards the libraries of the first, "
+                   "whose symbols are then exported", c.file, st.get("l"))
+        for bi, t in cflow.calls():
+            if (callee_key(t["f"]) or "").endswith("HashSet::insert") and t["args"]:
+                at = _decide.atoms_at(P, F, c, bi)
+                if any(a[0] == "variant:ExcludeLibs" and a[1] == frozenset({"Some"}) for a in at):
+                    n_ins += 1
+    rep.floor("exclude-libs-accumulate", "constructions of ExcludeLibs::Some in the option parser", n_some, 1)
+    rep.ob("exclude-libs-accumulate", "insert-into-existing", n_ins >= 1, f"{n_ins} insert(s) into the existing set on the ExcludeLibs::Some edge", None, None)
+
     # ---- STV_* -> Visibility: internal is at least as restrictive as hidden -----------------------------------------------------------
     # Property text: "Hidden or internal symbols ... are never exported". Every export decision above works on libwild's Visibility /
     # Symbol::is_hidden, so the conversion from st_other must send STV_INTERNAL (1) and STV_HIDDEN (2) to Hidden
